@@ -472,7 +472,10 @@ def load_nmeas_estimate(filename: AnyPath) -> Tuple[float, int, np.ndarray]:
     with open(filename, "r") as f:
         data = json.load(f)
 
-    frame_meas = convert_dict_to_array(data["frame_meas"])
+    # frame_meas is optional in save_nmeas_estimate, so it may be absent from the file.
+    frame_meas = (
+        convert_dict_to_array(data["frame_meas"]) if "frame_meas" in data else None
+    )
     K_coeff = data["K"]
     nterms = data["nterms"]
 
